@@ -11,10 +11,12 @@ CONSTANTS GenDepth,      \* number of calls in a script
           InitContents,  \* contents of the loaded zone
           MaxCommits,    \* bound on commits per script
           CloseHows,     \* subset of {"commit", "rollback", "exit"}: how a read transaction is ended
-          EndHows        \* subset of {"commit", "exit"} / {"rollback", "raise"} used for write transactions
+          EndHows,       \* subset of {"commit", "exit"} / {"rollback", "raise"} used for write transactions
+          IdOffsets      \* reader(id=newest id + d) for d in IdOffsets (ids near the retained window)
 
-VARIABLE hist
-gvars == <<vars, hist>>
+VARIABLES hist,
+          fin            \* the script is complete (simulation mode prints it exactly once)
+gvars == <<vars, hist, fin>>
 
 C(s, it) == [serial |-> s, items |-> it]
 A1 == <<"a", 1>>
@@ -23,6 +25,8 @@ B1 == <<"b", 1>>
 GenContentsTiny  == {C(1, {A1}), C(2, {A1})}
 GenContentsSmall == {C(1, {}), C(1, {A1}), C(2, {A1})}
 GenContents      == {C(1, {}), C(1, {A1}), C(2, {A1}), C(2, {A1, A2, B1}), C(3, {B1}), C(3, {A2})}
+GenNoOffsets == {}
+GenIdOffsets == {-2, -1, 0, 1}
 GenInitOne == {C(1, {A1})}
 GenInitTwo == {C(1, {A1}), C(2, {A1, A2, B1})}
 
@@ -31,12 +35,13 @@ H(e) == hist' = Append(hist, e)
 GInit ==
     \E k \in InitKinds :
        IF k = "fresh"
-       THEN Init /\ hist = <<[op |-> "init", kind |-> "fresh", content |-> Empty]>>
+       THEN Init /\ fin = FALSE /\ hist = <<[op |-> "init", kind |-> "fresh", content |-> Empty]>>
        ELSE \E c \in InitContents :
               /\ versions = <<[id |-> 2, content |-> c]>>
               /\ allIds = <<1, 2>>
               /\ published = (1 :> Empty) @@ (2 :> c)
               /\ readers = <<>> /\ policy = <<"default">> /\ writer = NoWriter /\ res = "ok"
+              /\ fin = FALSE
               /\ hist = <<[op |-> "init", kind |-> "loaded", content |-> c]>>
 
 Free == Rids \ DOMAIN readers
@@ -47,7 +52,8 @@ GStep ==
     \/ /\ "open" \in Ops /\ Free # {} /\ OpenLatest(NextRid)
        /\ H([op |-> "open", how |-> "latest", rid |-> NextRid, arg |-> 0])
     \/ /\ "openid" \in Ops /\ Free # {}
-       /\ \E n \in IdArgs : OpenById(NextRid, n) /\ H([op |-> "open", how |-> "id", rid |-> NextRid, arg |-> n])
+       /\ \E n \in IdArgs \cup {Last(allIds) + d : d \in IdOffsets} :
+             n > 0 /\ OpenById(NextRid, n) /\ H([op |-> "open", how |-> "id", rid |-> NextRid, arg |-> n])
     \/ /\ "openserial" \in Ops /\ Free # {}
        /\ \E s \in SerialArgs : OpenBySerial(NextRid, s) /\ H([op |-> "open", how |-> "serial", rid |-> NextRid, arg |-> s])
     \/ /\ "openboth" \in Ops /\ Free # {} /\ OpenBoth(NextRid)
@@ -55,8 +61,7 @@ GStep ==
     \/ /\ "close" \in Ops
        /\ \E r \in DOMAIN readers, how \in CloseHows : CloseReader(r) /\ H([op |-> "close", rid |-> r, how |-> how])
     \/ /\ "begin" \in Ops
-       \* the first transaction on a new zone is a load (replacement); see notes/C11.md (D2)
-       /\ \E b \in BOOLEAN : (Fresh => b) /\ BeginWrite(b) /\ H([op |-> "begin", repl |-> b])
+       /\ \E b \in BOOLEAN : BeginWrite(b) /\ H([op |-> "begin", repl |-> b])
     \/ /\ "stage" \in Ops
        /\ \E c \in Contents : Stage(c) /\ H([op |-> "stage", content |-> c])
     \/ /\ "commit" \in Ops /\ Len(allIds) <= MaxCommits
@@ -75,12 +80,16 @@ GStep ==
        /\ \E r \in DOMAIN readers : MutateThroughReader(r) /\ H([op |-> "mutate", rid |-> r])
     \/ /\ "zmutate" \in Ops /\ MutateZone /\ H([op |-> "zmutate"])
 
-GNext == Len(hist) <= GenDepth /\ GStep
+(* a finished script takes one `fin` step and then stutters *)
+GNext == \/ Len(hist) <= GenDepth /\ GStep /\ fin' = FALSE
+         \/ Len(hist) > GenDepth /\ fin' = TRUE /\ UNCHANGED <<vars, hist>>
 
 GSpec == GInit /\ [][GNext]_gvars
 
-(* simulation mode: print each behaviour once, when it has GenDepth calls *)
-Emit == (Len(hist) = GenDepth + 1) => PrintT("BEH " \o ToJson(hist))
+(* simulation mode: TLC evaluates invariants on ALL successors of the current state before
+   it picks one, so printing at the last call would print every possible last call;
+   the `fin` step has a single successor: each simulated behaviour is printed once *)
+Emit == fin => PrintT("BEH " \o ToJson(hist))
 
 (* edge-cover mode: the configuration declares VIEW vars (so the history is not part of a
    state's identity: TLC explores each state of VersionedZone once, breadth first, and
@@ -88,5 +97,5 @@ Emit == (Len(hist) = GenDepth + 1) => PrintT("BEH " \o ToJson(hist))
    evaluates on EVERY transition it generates: each transition of the bounded model is
    printed as (shortest script to its source state) + (the call), so the driver executes
    every transition of the model at least once on the real zone. *)
-EmitEdge == PrintT("BEH " \o ToJson(hist'))
+EmitEdge == fin' \/ PrintT("BEH " \o ToJson(hist'))
 =============================================================================
